@@ -301,7 +301,7 @@ def corpus_grammars(run):
     import glob, os
     gs = sorted(glob.glob(os.path.join(run.repo, "example", "*", "*.bnf")) + glob.glob(os.path.join(run.repo, "internal", "test", "*", "*.bnf")))
     gs += sorted(glob.glob(os.path.join(os.path.dirname(os.path.dirname(__file__)), "carriers", "*.bnf")))
-    gs += sorted(g for g in glob.glob(os.path.join(os.path.dirname(os.path.dirname(__file__)), "corpus", "*.bnf")) if "backquote" not in g)
+    gs += sorted(g for g in glob.glob(os.path.join(os.path.dirname(os.path.dirname(__file__)), "corpus", "*.bnf")) if "backquote" not in g and "reserved_" not in g)
     return gs
 
 
@@ -1004,3 +1004,56 @@ for _p in ("C02", "C04", "C06"):
     PROPS[_p]["govc"] = PROPS[_p]["govc"] + [dict(_first_govc, prop=_p)]
     PROPS[_p]["bounded"] = PROPS[_p].get("bounded", []) + [dict(_first_bounded)]
     PROPS[_p]["explanation"] += " Generator side, proved for all FIRST tables and symbol strings: FirstS is the union of FIRST of the symbols up to and including the first non-nullable one and contains the marker 'empty' exactly when every symbol is nullable (First, SymbolSet.AddSet, FirstSets.GetSet under contract); the fixed point GetFirstSets and the LR(1) closure/goto are decided by the bounded SYN sweep only."
+
+
+def c10_numbering(run):
+    """GROUND on emitted packages of the corpus: typeMap[0] = INVALID, typeMap[1] = end of input, typeMap duplicate free, idMap[typeMap[i]] = i, equal sizes"""
+    import expand, os, re, glob
+    gocc = expand.build_gocc(run)
+    base = os.path.dirname(os.path.dirname(__file__))
+    viol, cases, samples = [], 0, []
+    gs = corpus_grammars(run) + sorted(glob.glob(os.path.join(base, "corpus", "reserved_*.bnf")))
+    for g in gs:
+        if "illformed" in g or g.endswith("t2.bnf"):
+            continue
+        d = os.path.join(run.work, "numbering", os.path.basename(g))
+        rc, o = run_gocc(run, gocc, g, ["-a"], d)
+        if rc != 0:
+            continue
+        src = open(os.path.join(d, "token", "token.go"), encoding="utf-8").read()
+        tm = re.search(r"typeMap: \[\]string\{(.*?)\n\t\},", src, re.S)
+        im = re.search(r"idMap: map\[string\]Type\{(.*?)\n\t\},", src, re.S)
+        if not tm or not im:
+            viol.append({"id": "C10 numbering: token.go of %s has no typeMap/idMap literal" % os.path.basename(g), "what": "unexpected shape", "input": {"grammar": g}})
+            continue
+        import json as _json
+        def unq(x):
+            x = x.strip()
+            try:
+                return _json.loads(x)
+            except Exception:
+                return x
+        names = [unq(l.strip()[:-1]) for l in tm.group(1).split("\n") if l.strip().endswith(",") and l.strip().startswith('"')]
+        ids = {}
+        for l in im.group(1).split("\n"):
+            l = l.strip()
+            if l.startswith('"') and l.endswith(",") and ":" in l:
+                k, v = l[:-1].rsplit(":", 1)
+                ids[unq(k)] = int(v)
+        cases += 1
+        name = os.path.basename(g)[:-4]
+        problems = []
+        if names[:2] != ["INVALID", "\u241a"]:
+            problems.append("typeMap starts with %r" % names[:2])
+        if len(set(names)) != len(names):
+            problems.append("duplicate names in typeMap")
+        if len(ids) != len(names) or any(ids.get(n) != i for i, n in enumerate(names)):
+            problems.append("idMap is not the inverse of typeMap")
+        if problems:
+            viol.append({"id": "C10 numbering: %s" % name, "what": "; ".join(problems), "input": {"grammar": g, "typeMap": names[:6]}})
+        if len(samples) < 5:
+            samples.append({"grammar": name, "terminals": len(names)})
+    return {"name": "GROUND token numbering literals of the corpus grammars", "cases": cases, "evaluations": cases, "violations": viol, "samples": samples}
+
+
+PROPS["C10"].setdefault("extra", []).append(c10_numbering)
